@@ -171,13 +171,13 @@ variable {α : Type}
 
 /-! ### after CloseAndDiscardQueued the consumer can leave by itself -/
 
-theorem cdq_exit (s : QState α) (h : QInv s) (hst : s.stopped = true) (hcl : s.closed = true)
-    (hb : s.pendingBcast = 0) :
+theorem cdq_exit' (s : QState α) (hst : s.stopped = true) (hcl : s.closed = true)
+    (hns : s.consumer ≠ .sleeping) :
     ∃ steps : List (QStep α), steps.length ≤ 2 ∧ (∀ st ∈ steps, st.isConsumer = true) ∧
       (s.run steps).consumer = .exited := by
   cases hcons : s.consumer with
   | exited => exact ⟨[], by simp, by simp, by simpa [QState.run] using hcons⟩
-  | sleeping => have := h.wake hcl hcons; omega
+  | sleeping => exact absurd hcons hns
   | holding x =>
     refine ⟨[.consumeStop], by simp, by simp [QStep.isConsumer], ?_⟩
     simp [QState.run, step, hcons, hst]
@@ -189,6 +189,44 @@ theorem cdq_exit (s : QState α) (h : QInv s) (hst : s.stopped = true) (hcl : s.
     | cons x rest =>
       refine ⟨[.consume, .consumeStop], by simp, by simp [QStep.isConsumer], ?_⟩
       simp [QState.run, step, hcons, hit, hst]
+
+theorem cdq_exit (s : QState α) (h : QInv s) (hst : s.stopped = true) (hcl : s.closed = true)
+    (hb : s.pendingBcast = 0) :
+    ∃ steps : List (QStep α), steps.length ≤ 2 ∧ (∀ st ∈ steps, st.isConsumer = true) ∧
+      (s.run steps).consumer = .exited :=
+  cdq_exit' s hst hcl (fun hsl => by have := h.wake hcl hsl; omega)
+
+/-- once `closed` is set a consumer that is awake never goes to sleep again -/
+theorem awake_step (s : QState α) (st : QStep α) (hcl : s.closed = true) (hns : s.consumer ≠ .sleeping) :
+    (s.step st).consumer ≠ .sleeping := by
+  cases st <;> simp only [step] <;> (repeat' split) <;>
+    first
+    | exact hns
+    | (intro h; cases h)
+    | (cases hc : s.consumer <;> simp_all [wake])
+
+theorem awake_run (s : QState α) (steps : List (QStep α)) (hcl : s.closed = true)
+    (hns : s.consumer ≠ .sleeping) : (s.run steps).consumer ≠ .sleeping := by
+  induction steps generalizing s with
+  | nil => exact hns
+  | cons st rest ih => exact ih _ (step_closed s st hcl) (awake_step s st hcl hns)
+
+/-- the Broadcast of a Close that has stored `closed` finds the consumer awake or wakes it -/
+theorem bcast_awake (s : QState α) (h : QInv s) (hcl : s.closed = true) :
+    (s.step .closeBcast).consumer ≠ .sleeping := by
+  simp only [step]; split
+  · next hz => intro hsl; have := h.wake hcl hsl; omega
+  · cases hc : s.consumer <;> simp [wake]
+
+theorem run_closed (s : QState α) (steps : List (QStep α)) (h : s.closed = true) : (s.run steps).closed = true := by
+  induction steps generalizing s with
+  | nil => exact h
+  | cons st rest ih => exact ih _ (step_closed s st h)
+
+theorem run_stopped (s : QState α) (steps : List (QStep α)) (h : s.stopped = true) : (s.run steps).stopped = true := by
+  induction steps generalizing s with
+  | nil => exact h
+  | cons st rest ih => exact ih _ (step_stopped s st h)
 
 /-! ### after plain Close the consumer leaves if a reader drains -/
 
